@@ -156,7 +156,9 @@ func monitorRoundTrip(caseLine string, ops []Call) (fails []Failure) {
 	} else {
 		prog = ops
 	}
-	bs, err := EncodeCalls(prog, false)
+	// encode the WHOLE history on one Encoder (whatever preceded the last Reset must be forgotten),
+	// expect the calls since the last Reset
+	bs, err := EncodeCalls(ops, false)
 	if err != nil {
 		return []Failure{{"C01.encode-accepts-wellformed", caseLine, "Bytes error: " + err.Error()}}
 	}
